@@ -98,6 +98,8 @@ theorem run_good (cfg : Cfg) (adv : List Req → Reply) :
       refine ⟨?_, Nat.le_refl _, Nat.le_refl _, by simp, by simp, by simp <;> omega, by simp⟩
       simp only []; split <;> simp
     · rename_i r hcur
+      split
+      · exact ⟨by simp, Nat.le_refl _, Nat.le_refl _, by simp, by simp, by simp <;> omega, by simp⟩
       simp only []
       split
       · exact ⟨by simp, Nat.le_refl _, Nat.le_refl _, by simp, by simp, by simp <;> omega, by simp⟩
